@@ -3,11 +3,11 @@ from vf.props import common as C
 
 
 def plan(tier):
-    roles = ("charging", "charging-full", "queueing", "idle", "arriving")
-    conds = [Cond("vf.h.h_queue", "h_fifo", case=r, timeout=900, env={"VF_ORACLE": "C18"}, label=f"H18-fifo[v0 {roles[r]}]", weight=30) for r in range(5)]
+    roles = ("charging", "charging-full", "queueing", "idle", "arriving", "queueing-nearly-full")
+    conds = [Cond("vf.h.h_queue", "h_fifo", case=r, timeout=900, env={"VF_ORACLE": "C18"}, label=f"H18-fifo[v0 {roles[r]}]", weight=30) for r in range(6)]
     conds.append(Cond("vf.h.h_queue", "h_fifo_reach", case=1, timeout=100, expect="refute", env={"VF_ORACLE": "C18"}, label="H18-reach"))
     if tier == "thorough":
-        conds += [Cond("vf.h.h_queue", "h_fifo", case=r, timeout=900, env={"VF_ORACLE": "C02"}, label=f"H18-counters[v0 {roles[r]}]", weight=30) for r in range(5)]
+        conds += [Cond("vf.h.h_queue", "h_fifo", case=r, timeout=900, env={"VF_ORACLE": "C02"}, label=f"H18-counters[v0 {roles[r]}]", weight=30) for r in range(6)]
     return {
         "conds": conds,
         "min_classes": 40,
@@ -15,7 +15,7 @@ def plan(tier):
                        "symbolic enqueue time, idle, arriving), symbolic installed plugs and ghost chargers/queue members: no modelled vehicle leaves the queue to charge while a "
                        "modelled vehicle that joined strictly earlier (ties: smaller id; ids v0 < v1 < v10 lexicographically) still queues, whatever order SimulationState.vehicles yields its values in (solver-chosen permutation); counters stay exact.",
         "entry_points": ["step_simulation_ops.perform_vehicle_state_updates", "_sort_by_vehicle_state", "ChargeQueueing.update", "ChargingStation.update", "DispatchStation.update"],
-        "bounds": ["3 modelled vehicles, 5 roles each; enqueue times in [0, 1e5]; plugs/ghosts unbounded; dt = 60 s"],
+        "bounds": ["3 modelled vehicles, 6 roles each; enqueue times in [0, 1e5] s (spans a midnight); plugs/ghosts unbounded; dt = 60 s"],
         "outside": ["ghost queue members are not observed by the oracle", "controllers that explicitly instruct a queued vehicle to charge"],
         "stubs": C.STUBS_COMMON + C.STUBS_UPD[1:],
         "assumptions": ["pre-state satisfies the counter invariant"],
